@@ -563,6 +563,17 @@ def apply_history(w, mll, cfg):
                     mod.outputscale = 0.5 + 1.5 * torch.rand(mod.outputscale.shape, generator=gen, dtype=torch.float64)
                 if type(mod).__name__ == "HomoskedasticNoise":
                     mod.noise = 0.05 + 0.4 * torch.rand(mod.noise.shape, generator=gen, dtype=torch.float64)
+            # the documented setter of the FIXED noise (`likelihood.noise = new`, alternately `noise_covar.noise = new` /
+            # `initialize(noise=new)`): the objective must use the new observation noise from here on
+            if isinstance(lik, gpytorch.likelihoods.FixedNoiseGaussianLikelihood):
+                newn = 0.05 + 0.9 * torch.rand(lik.noise_covar.noise.shape, generator=gen, dtype=torch.float64)
+                how = int(torch.randint(0, 3, (1,), generator=gen))
+                if how == 0:
+                    lik.noise = newn
+                elif how == 1:
+                    lik.noise_covar.noise = newn
+                else:
+                    lik.initialize(noise=newn)
         elif op == "targets":
             new_y = -1.5 + 3.0 * torch.rand(w.train_y.shape, generator=gen, dtype=torch.float64)
             model.set_train_data(targets=new_y, strict=False)
@@ -903,6 +914,10 @@ def twin_check(case, w, A, m, tag):
             w2.train_y = w.train_y
         if getattr(w, "call_noise", None) is not None:
             w2.call_noise = w.call_noise
+        fx = getattr(getattr(w.lik, "noise_covar", None), "noise", None)
+        if type(getattr(w.lik, "noise_covar", None)).__name__ == "FixedGaussianNoise" and torch.is_tensor(fx):
+            # the fixed noise is a plain attribute (not part of the state_dict): the twin is handed the current one
+            w2.lik.noise_covar.noise = fx.detach().clone()
         _o2, A2, m2, _y2 = dense_parts(w2)
     except Exception as e:
         case.notes["twin_skipped"] = f"{type(e).__name__}: {str(e)[:100]}"
@@ -1334,6 +1349,13 @@ def gen_cfgs(ctx):
                 c = Mz.random_cfg(rng, family=fam, n_max=7)
                 c["history"] = [op]
                 cfgs.append(("mll", c))
+    # fixed-noise likelihoods: evaluate, replace the fixed noise through a documented setter, evaluate again
+    for _ in range(2 if quick else 8):
+        for lk in ("fixed", "fixed+learned"):
+            c = Mz.random_cfg(rng, family="single", n_max=6)
+            c["lik"] = lk
+            c["history"] = ["setter"] + ([rng.choice(["raw", "targets"])] if rng.random() < 0.4 else [])
+            cfgs.append(("mll", c))
     # batched models with every prior kind on every site (covers the per-batch reduction cells deliberately)
     for site in Mz.PRIOR_SITES:
         for kind in (Mz.PRIOR_KINDS if site != "constant" else ["normal", "smoothedbox"]):
